@@ -261,6 +261,32 @@ def enumerate_cases(tier):
                     if la <= a <= ha and lb <= b <= hb \
                             and {na: a, nb: b} not in vectors:
                         vectors.append({na: a, nb: b})
+            if (ka, va, fa) == (kb, vb, fb):
+                # bit tests of this operand kind with masks up to its width
+                # (immediate-sized, bit 31, beyond 32 bits), plain / negated
+                width = 64 if dsl.SIZES[fa] == 8 else 32
+                one = {"decls": [d for d in decls if d["name"] == "v0"],
+                       "regs": [r for r in regs if r["no"] == 3]}
+                for M in (1, 0x80, 0x8000, 0xf0f0, 0x7fffffff, 0x80000000,
+                          0xc0000000, 0xffffffff, 2**32, 2**40 + 2**31,
+                          2**63):
+                    if M >= 1 << width:
+                        continue
+                    vals = [v for v in (0, 1, M, M >> 1, M << 1, M - 1,
+                                        2**32 + 1, 2**40, 2**31 - 1, 2**31,
+                                        -1, -2, la, ha, 0xffffffff00000000,
+                                        -2**31, -2**32)
+                            if la <= v <= ha]
+                    for neg in (False, True):
+                        cond = ["mask", A, M]
+                        if neg:
+                            cond = ["not", cond]
+                        yield dict(one, prog=[
+                            ["if", {"conds": [cond], "body": [["mark", 1]],
+                                    "else": {"body": [["mark", 2]]}}],
+                            ["mark", 3]],
+                            vectors=[{na: v} for v in dict.fromkeys(vals)],
+                            nmarks=3)
             for op in CMPS:
                 for neg in (False, True):
                     cond = ["cmp", op, A, B]
